@@ -197,7 +197,6 @@ class CustomCorrelations(BaseCorrelations):
         """
         return self.correlation_function(tau)
 
-    @lru_cache(maxsize=2 ** 10, typed=False)
     def correlation_2d_integral(
             self,
             delta: float,
@@ -246,6 +245,16 @@ class CustomCorrelations(BaseCorrelations):
             The numerical value for the two dimensional integral
             :math:`\eta_\mathrm{shape}`.
         """
+        return self._correlation_2d_integral(
+            self.correlation_function, delta, time_1, time_2, shape, epsrel,
+            subdiv_limit)
+
+    @lru_cache(maxsize=2 ** 10, typed=False)
+    def _correlation_2d_integral(
+            self,
+            correlation_function, # pylint: disable=unused-argument
+            delta, time_1, time_2, shape, epsrel, subdiv_limit):
+        """Memoised 2D integral for the given (current) correlation function."""
         c_real = lambda y, x: np.real(self.correlation(x - y))
         c_imag = lambda y, x: np.imag(self.correlation(x - y))
 
@@ -515,7 +524,6 @@ class CustomSD(BaseCorrelations):
             integral = integral.real
         return integral
 
-    @lru_cache(maxsize=2 ** 10, typed=False)
     def eta_function(
             self,
             tau: ArrayLike,
@@ -549,6 +557,20 @@ class CustomSD(BaseCorrelations):
         correlation : ndarray
             The auto-correlation function :math:`C(\tau)` at time :math:`\tau`.
         """
+        return self._eta_function(
+            self._parameters(), tau, epsrel, subdiv_limit, matsubara)
+
+    def _parameters(self) -> tuple:
+        """The current parameters that determine the spectral density. """
+        return (self.j_function, self.cutoff, self.cutoff_type,
+                self.temperature)
+
+    @lru_cache(maxsize=2 ** 10, typed=False)
+    def _eta_function(
+            self,
+            parameters, # pylint: disable=unused-argument
+            tau, epsrel, subdiv_limit, matsubara):
+        """Memoised eta function for the given (current) parameters."""
         # real and imaginary part of the integrand
         if matsubara:
             tau = -1j * tau
@@ -749,6 +771,10 @@ class PowerLawSD(CustomSD):
                          temperature=temperature,
                          name=name,
                          description=description)
+
+    def _parameters(self) -> tuple:
+        """The current parameters that determine the spectral density. """
+        return super()._parameters() + (self.alpha, self.zeta)
 
     def __str__(self) -> Text:
         ret = []
